@@ -683,3 +683,10 @@ impl<'r, 'c, 's, W: Write> DatumSerializer<'r, 'c, 's, W> {
 		})
 	}
 }
+
+/// Verification harness mount point (only compiled under `cargo kani`; source lives outside this repository)
+#[cfg(kani)]
+#[allow(unused, missing_docs)]
+pub(crate) mod verif {
+	include!(concat!(env!("SAF_VERIF"), "/ser_serializer.rs"));
+}
